@@ -1104,3 +1104,91 @@ def no_pruning_in_filter(F, rep, rule="C04.2"):
         rep.violated(rule, "filter-keeps-boundary-exts", "filter_kmers reaches %s (via %s): extensions pointing into other shards would be dropped before the shards are combined" % (bad[1], bad[0]))
     else:
         rep.holds(rule, "filter-keeps-boundary-exts", "filter_kmers reaches no extension-pruning function (%d callees inspected): shard-boundary extensions survive to the combined graph" % len(seen))
+
+
+# =========================================================================== C03.7b beam search expansion
+
+def beam_expand_table(F, rep, rule="C03.7"):
+    """expand_state (used by max_path_beam): a successor state's path never repeats a node"""
+    try:
+        body = pub_fn(F, "expand_state")
+    except Unsupported as e:
+        rep.violated(rule, "expand_state", str(e), witness={"kind": "anchor-missing"})
+        return
+    st_names = [f["name"] for f in F.adts.get("graph::State", {"variants": [{"fields": []}]})["variants"][0]["fields"]]
+    status = F.adts.get("graph::Status")
+    if not {"path", "score", "status"} <= set(st_names) or not status:
+        rep.violated(rule, "expand_state", "anchor-missing: graph::State / graph::Status", witness={"kind": "anchor-missing"})
+        return
+    vnames = [v["name"] for v in status["variants"]]
+
+    class H(Oracles):
+        def __init__(self, edges, ends):
+            Oracles.__init__(self)
+            self.edges_of_last = edges
+            self.ends = ends
+
+        def on_call(self, it, fn, args, dest_ty, term, caller):
+            path = fn.get("path", "")
+            name = path.split("::")[-1]
+            if is_print_call(fn):
+                return Opaque(dest_ty, {"fmt"})
+            if path.startswith("graph::Node::<"):
+                nd = recv(it, args[0])
+                nid = nd.fields[0].val if isinstance(nd.fields[0], Int) and nd.fields[0].is_conc() else None
+                if name == "data":
+                    return Ref(Cell(Opaque("D", {"data"}), "data"))
+                if name in ("edges", "l_edges", "r_edges"):
+                    if nid == self.last:
+                        return VecV([Tup([Int(64, False, val=t), dir_v(d), mkbool(False)]) for t, d in self.edges_of_last])
+                    return VecV([]) if nid in self.ends else VecV([Tup([Int(64, False, val=99), dir_v(LEFT), mkbool(False)])])
+            if name in ("call", "call_mut", "call_once") and isinstance(recv(it, args[0]), Opaque):
+                return Opaque("f32", {"score"})
+            return NotImplemented
+    problems = []
+    inc = []
+    rows = 0
+    for prefix in ([0], [0, 1], [2, 0, 1]):
+        last = prefix[-1]
+        for targets in ([], [5], [prefix[0]], [last], [5, prefix[0]], [prefix[0], 6, 7]):
+            rows += 1
+            rep.evaluations += 1
+            h = H([(t, LEFT) for t in targets], ends={5})
+            h.last = last
+            it = Interp(F, False, h)
+            g = graph_value(F, False)
+            pathv = VecV([Tup([Int(32, False, val=n), dir_v(LEFT)]) for n in prefix])
+            fields = {"path": pathv, "score": Opaque("f32", {"score"}), "status": Adt("graph::Status", vnames.index("Active"), [])}
+            state = Adt("graph::State", 0, [fields[n] for n in st_names])
+            try:
+                out = it.call_body(body, [Ref(Cell(g, "graph")), Ref(Cell(state, "state")), Ref(Cell(Opaque("F", {"score-fn"}), "score"))])
+            except (Undecided, Unsupported) as e:
+                inc.append(str(e))
+                continue
+            except Diverge as e:
+                problems.append("expand_state diverges for path %s with successors %s: %s" % (prefix, targets, e))
+                continue
+            if not isinstance(out, VecV) or len(out.elems) != len(targets):
+                inc.append("result %r" % (out,))
+                continue
+            for t, ns in zip(targets, out.elems):
+                p = ns.fields[st_names.index("path")]
+                stt = ns.fields[st_names.index("status")]
+                ids = [e.fields[0].val for e in p.elems] if isinstance(p, VecV) else None
+                if ids is None:
+                    inc.append("successor path %r" % (p,))
+                    continue
+                if len(set(ids)) != len(ids):
+                    problems.append("best-path search: extending the path %s to node %d (already on the path) yields the successor path %s, which repeats a node" % (prefix, t, ids))
+                elif t not in prefix and ids != prefix + [t]:
+                    problems.append("extending the path %s to the fresh node %d yields %s" % (prefix, t, ids))
+                want_status = "Cycle" if t in prefix else ("End" if t in h.ends else "Active")
+                if isinstance(stt, Adt) and stt.variant is not None and vnames[stt.variant] != want_status:
+                    problems.append("successor reaching node %d from path %s has status %s, required %s" % (t, prefix, vnames[stt.variant], want_status))
+    if problems:
+        rep.violated(rule, "expand_state", problems[0], site=F.site(body, body["line"]), witness={"kind": "row", "count": len(problems)})
+    elif inc:
+        rep.inconclusive(rule, "expand_state", "expand_state: %s" % inc[0])
+    else:
+        rep.holds(rule, "expand_state", "beam-search expansion: a successor path is the old path plus a fresh node; reaching a node already on the path ends the search "
+                  "branch (Cycle) without repeating it (%d scenarios)" % rows)
